@@ -102,3 +102,23 @@ void h_objeq(void) {
   VASSERT(((r >> 2) & 1) == (unsigned)!expect, "!= is the negation of ==");
   if (expect) VWITNESS("equal"); else VWITNESS("different");
 }
+
+/* ---- C04/C06: object history add k1, add k2, remove (first | second), add k3 with the keys a, b, c
+ * and symbolic values: the survivor keeps its key and value, order = survivor then new member, the freed pair of slots is
+ * reused (no new pool), lookups agree with the model */
+#ifndef RM
+#define RM 1
+#endif
+void h_obj_hist(void) {
+  uint8_t k1[2] = {'a', 0}, k2[2] = {'b', 0}, k3[2] = {'c', 0};   /* which member a key designates is part of the shape: keys concrete, values symbolic */
+  int32_t v1 = (int32_t)vin_u32(), v2 = (int32_t)vin_u32(), v3 = (int32_t)vin_u32();
+  struct S_OHist h; memset(&h, 0, sizeof h); w_obj_hist(k1, k2, k3, (uint32_t)v1, (uint32_t)v2, (uint32_t)v3, RM, &h);
+  /* S_OHist: f0 size f1 n f2 calls_mid f3 calls_end f4 found1 f5 found2 f6 found3 f7 keys f8 vals */
+  uint8_t sk = RM == 1 ? k2[0] : k1[0]; int32_t sv = RM == 1 ? v2 : v1;
+  VASSERT(h.f0 == 2 && h.f1 == 2, "two members remain");
+  VASSERT(h.f7.e[0] == sk && (int32_t)h.f8.e[0] == sv, "the member that was not removed keeps its key and value and comes first");
+  VASSERT(h.f7.e[1] == k3[0] && (int32_t)h.f8.e[1] == v3, "the new member is appended after it");
+  VASSERT((h.f4 & 1) == (RM != 1) && (h.f5 & 1) == (RM != 2) && (h.f6 & 1), "lookups: removed key absent, the others present");
+  VASSERT(h.f3 <= h.f2 + 1, "the two slots released by the removal are reused: at most the new key string is allocated");
+  VWITNESS("any");
+}
